@@ -67,6 +67,12 @@ pub fn doc_tails() -> Vec<Vec<P>> {
         vec![pos("STRICTP", Some("strict positional help"), Strict::Strict).many()],
         vec![P::Alt(vec![c1.clone(), c2.clone(), c3]).opt()],
         vec![c1.clone()],
+        // command paths that differ only in dash-versus-nesting (anchors and section keys derived
+        // from them must stay distinct)
+        vec![P::Alt(vec![
+            P::Cmd { name: "remote-add".into(), shorts: vec![], longs: vec![], inner: Box::new(Opts::new(P::Seq(vec![P::Switch(h(Names::long("dashed"), "flag of the dashed command"))]))), adjacent: false, help: Some(DocSpec::plain("dashed name")) },
+            P::Cmd { name: "remote".into(), shorts: vec![], longs: vec![], inner: Box::new(Opts::new(P::Seq(vec![P::Cmd { name: "add".into(), shorts: vec![], longs: vec![], inner: Box::new(Opts::new(P::Seq(vec![P::Switch(h(Names::long("nested"), "flag of the nested command"))]))), adjacent: false, help: Some(DocSpec::plain("nested name")) }]))), adjacent: false, help: Some(DocSpec::plain("outer of the nested")) },
+        ])],
         // a command sharing a titled group with a flag that comes first
         vec![P::GroupHelp(P::Seq(vec![P::Switch(h(Names::long("victor"), "flag next to a command")), c1]).bx(), DocSpec::plain("Flag and command together"))],
     ]
